@@ -117,6 +117,17 @@ func genStep(seed uint64, root *gorm.DB) step06 {
 		return step06{desc: "Clauses(Where{Gt c3})", apply: func(db *gorm.DB) *gorm.DB { return db.Clauses(clause.Where{Exprs: exprs}) }}
 	case k == 24:
 		return step06{desc: `Table("tags")`, apply: func(db *gorm.DB) *gorm.DB { return db.Table("tags") }}
+	case k == 28:
+		c := g.simpleCond(root, 0)
+		return step06{desc: "Or(" + c.desc + ")", apply: func(db *gorm.DB) *gorm.DB { return db.Or(c.query, c.args...) }}
+	case k == 29:
+		c := g.simpleCond(root, 0)
+		return step06{desc: "Where(" + c.desc + ")", apply: func(db *gorm.DB) *gorm.DB { return db.Where(c.query, c.args...) }}
+	case k == 26:
+		// a call gorm rejects: the error belongs to this chain only
+		return step06{desc: "Select(123)", apply: func(db *gorm.DB) *gorm.DB { return db.Select(123) }}
+	case k == 27:
+		return step06{desc: `Select("c1", 5)`, apply: func(db *gorm.DB) *gorm.DB { return db.Select("c1", 5) }}
 	}
 	return step06{desc: "Model(&Tag{})", apply: func(db *gorm.DB) *gorm.DB { return db.Model(&Tag{}) }}
 }
@@ -282,12 +293,36 @@ func run06(c *core.Ctx) {
 	var events []event06
 	var kept []*step06
 	var txs []*gorm.DB
+	var grouped []*node06 // handles already used as a grouped condition: they are used again (and again)
+	pickGroup := func() *node06 {
+		if len(grouped) > 0 && r.Bool() {
+			return core.Pick(r, grouped)
+		}
+		return core.Pick(r, nodes)
+	}
 	nops := r.Range(10, 28)
+	if r.Chance(1, 4) {
+		// a reusable handle whose first condition is an Or (legal: a leading Or reads as Where), kept
+		// at hand as grouped condition for the chains of this history
+		var path []pel
+		db := root
+		for _, form := range []uint64{28, 29, 29}[:r.Range(2, 3)] {
+			p := pel{kind: "step", seed: (r.U64() &^ 31) | form}
+			db, _, _ = applyPel(p, db, root)
+			path = append(path, p)
+		}
+		mk := pel{kind: "session"}
+		db, _, _ = applyPel(mk, db, root)
+		n := &node06{db: db, path: append(path, mk)}
+		nodes = append(nodes, n)
+		grouped = append(grouped, n, n)
+		c.Inc("or_first_handles")
+	}
 	// each history draws from a small palette of method forms, so that the same clause is
 	// touched again and again along related handles (aliasing needs repetition)
 	palette := make([]int, r.Range(1, 5))
 	for i := range palette {
-		palette[i] = r.Intn(26)
+		palette[i] = r.Intn(28)
 	}
 	stepSeed := func() uint64 { return (r.U64() &^ 31) | uint64(core.Pick(r, palette)) }
 	for i := 0; i < nops; i++ {
@@ -322,7 +357,7 @@ func run06(c *core.Ctx) {
 			path := append([]pel(nil), n.path...)
 			for j := r.Intn(4); j > 0; j-- {
 				p := pel{kind: "step", seed: stepSeed()}
-				if p.seed%32 >= 25 {
+				if p.seed%32 == 25 {
 					// Model(&T{}) hands gorm a caller-owned object that update finishers write
 					// back to by design; kept out of reusable handles (it would be shared
 					// mutable state of the caller, not of the handle)
@@ -347,16 +382,27 @@ func run06(c *core.Ctx) {
 			p := pel{kind: "step", seed: stepSeed()}
 			if r.Chance(1, 5) {
 				// grouped condition built from another reusable handle of the tree
-				if g := core.Pick(r, nodes); !hasBegin(g.path) && len(g.path) > 0 {
+				if g := pickGroup(); !hasBegin(g.path) && len(g.path) > 0 {
 					p = pel{kind: "group", seed: r.U64(), hdl: g.db, sub: g.path}
+					grouped = append(grouped, g)
 					c.Inc("handles_used_as_group")
 				}
 			}
 			db, _, s := applyPel(p, n.db, root)
 			kept = append(kept, s)
+			isGroup := p.kind == "group"
 			p.hdl = nil
-			chains = append(chains, &chain{db: db, path: append(append([]pel(nil), n.path...), p)})
+			ch := &chain{db: db, path: append(append([]pel(nil), n.path...), p)}
 			c.Inc("chains_started")
+			if isGroup && r.Bool() {
+				// the group is the chain's only condition and the chain is executed at once
+				fs := r.U64()
+				_, f := genFinisher(fs)
+				events = append(events, event06{path: ch.path, finSeed: fs, got: fmtStmt(f(ch.db))})
+				c.Inc("finishers_on_lone_group")
+				continue
+			}
+			chains = append(chains, ch)
 		case k < 7:
 			// extend a chain in progress
 			if len(chains) == 0 {
@@ -364,9 +410,17 @@ func run06(c *core.Ctx) {
 			}
 			ch := core.Pick(r, chains)
 			p := pel{kind: "step", seed: stepSeed()}
+			if r.Chance(1, 6) {
+				if g := pickGroup(); !hasBegin(g.path) && len(g.path) > 0 {
+					p = pel{kind: "group", seed: r.U64(), hdl: g.db, sub: g.path}
+					grouped = append(grouped, g)
+					c.Inc("handles_used_as_group")
+				}
+			}
 			var s *step06
 			ch.db, _, s = applyPel(p, ch.db, root)
 			kept = append(kept, s)
+			p.hdl = nil
 			ch.path = append(ch.path, p)
 		case k < 9:
 			// execute a finisher on a chain (which is then finished) ...
@@ -450,7 +504,7 @@ func run06(c *core.Ctx) {
 var EngineC06 = &core.Engine{
 	ID:    "C06",
 	Level: "exploration",
-	Rule: "histories of 10..28 operations over a growing tree of reusable handles (Open; Session, Session{NewDB}, WithContext, Debug, Begin with 0..3 chain methods in front): start a chain from any handle, extend any chain, execute a DryRun finisher (11 kinds) on a chain or directly on a handle, abandon chains; chain methods from 26 forms (Where/Or/Not in 4 renderings, Select list/varargs, Omit, Order, Limit, Offset, Group, Having, Joins, Distinct, Unscoped, Scopes, Clauses(Returning/OrderBy/Locking/OnConflict/Where), Table, Model) with slice arguments that have spare capacity; " +
+	Rule: "histories of 10..28 operations over a growing tree of reusable handles (Open; Session, Session{NewDB}, WithContext, Debug, Begin with 0..3 chain methods in front): start a chain from any handle, extend any chain, execute a DryRun finisher (11 kinds) on a chain or directly on a handle, abandon chains, pass a reusable handle (repeatedly the same one) as grouped condition to Where/Or at the start or in the middle of a chain; chain methods from 28 forms (two of them calls gorm rejects: the error must stay in that chain; Where/Or/Not in 4 renderings, Select list/varargs, Omit, Order, Limit, Offset, Group, Having, Joins, Distinct, Unscoped, Scopes, Clauses(Returning/OrderBy/Locking/OnConflict/Where), Table, Model) with slice arguments that have spare capacity; " +
 		"every finisher event's path is replayed alone (twice) on a fresh Open and compared; distinct = (method-name path, finisher); non-trivial = path of at least 2 calls",
 	Assumptions: []string{
 		"results of chain methods (non-reusable handles) are only ever continued as that same chain, never forked, as gorm documents",
